@@ -208,7 +208,7 @@ var specConsts = map[string]*Term{
 	"minInt64":  NumStr("-9223372036854775808"),
 	"maxUint32": Num(4294967295),
 	"maxUint64": NumStr("18446744073709551615"),
-	"yearNs":    NumStr("31536000000000000000"),
+	"yearNs":    NumStr("31536000000000000"),
 	"secondNs":  Num(1000000000),
 	"msNs":      Num(1000000),
 	"two256":    NumStr("115792089237316195423570985008687907853269984665640564039457584007913129639936"),
